@@ -234,42 +234,31 @@ theorem hbWalk_piecesFL : ∀ (ps : List (List Cell)) (k : Nat) (prev : Option N
 
 /-! ### The scanner cuts the text into such pieces -/
 
-/-- Strong form: the segment at `(st, rest)` contains a line terminator only as its last cell, and
-then it carries the must-break flag (uniseg LB4/LB5/LB6: no break before, a mandatory break after
-a hard line break). -/
+/-- The segment at `(st, rest)` contains a line terminator only as its last cell, and then it
+carries the must-break flag (uniseg LB4/LB5/LB6: no break before, a mandatory break after a hard
+line break). -/
 def SegTermStrong {σ : Type} (o : σ → List Cell → Nat × Bool × σ) (st : σ) (rest : List Cell) : Prop :=
   (∀ c ∈ (rest.take (o st rest).1).dropLast, c.term = false) ∧
   (∀ c, (rest.take (o st rest).1).getLast? = some c → c.term = true → (o st rest).2.1 = true)
 
-/-- Weak form, for a query whose state does not belong to the position (text.go keeps the *old*
-uniseg state when it splits a long word, and uniseg takes the class of the first rune from the
-state): the first cell may be a terminator that is not recognised; behind it everything is as in
-the strong form. -/
-def SegTermWeak {σ : Type} (o : σ → List Cell → Nat × Bool × σ) (st : σ) (rest : List Cell) : Prop :=
-  (∀ c ∈ (rest.take (o st rest).1).tail.dropLast, c.term = false) ∧
-  (∀ c, (rest.take (o st rest).1).getLast? = some c → c.term = true →
-    2 ≤ (rest.take (o st rest).1).length → (o st rest).2.1 = true)
-
-/-- What `hardBreakOK` needs of the segmentation oracle.  `Fresh st rest` = "the state `st` is the
-one the segmenter itself returned for the position `rest`"; it holds after every segment taken
-(`step`), segments of fresh queries are `strong`, all others at least `weak`.  Asserted per query
-by the harness for uniseg (strong for queries reached by succession, weak for the stale ones). -/
-structure OracleTermW {σ : Type} (o : σ → List Cell → Nat × Bool × σ) (Fresh : σ → List Cell → Prop) : Prop where
+/-- What the hard-break statements need of the segmentation oracle.  `Fresh st rest` = "the state
+`st` belongs to the position `rest`": it holds for the state the segmenter returned with the
+remainder (`step`) and for the state `ini` = -1 ("unknown": uniseg then determines the class of the
+first rune itself) at every position (`init`); segments of fresh queries are `strong`.  Since the
+F116 fix (`s.state = -1` after a long-word split) text.go only makes fresh queries.  Asserted per
+query by the harness for uniseg. -/
+structure OracleTermW {σ : Type} (o : σ → List Cell → Nat × Bool × σ) (ini : σ)
+    (Fresh : σ → List Cell → Prop) : Prop where
+  init : ∀ rest, Fresh ini rest
   step : ∀ st rest, Fresh (o st rest).2.2 (rest.drop (o st rest).1)
   strong : ∀ st rest, Fresh st rest → SegTermStrong o st rest
-  weak : ∀ st rest, SegTermWeak o st rest
 
 /-- Every query is strong (true of the transcribed `richtext.firstLineSegment`, which has no state). -/
 def OracleTerm {σ : Type} (o : σ → List Cell → Nat × Bool × σ) : Prop := ∀ st rest, SegTermStrong o st rest
 
-theorem SegTermStrong.weak {σ : Type} {o : σ → List Cell → Nat × Bool × σ} {st : σ} {rest : List Cell}
-    (h : SegTermStrong o st rest) : SegTermWeak o st rest := by
-  refine ⟨?_, fun c hc ht _ => h.2 c hc ht⟩
-  exact TermLast.toFL h.1
-
-theorem OracleTerm.toW {σ : Type} {o : σ → List Cell → Nat × Bool × σ} (h : OracleTerm o) :
-    OracleTermW o (fun _ _ => True) :=
-  ⟨fun _ _ => trivial, fun st rest _ => h st rest, fun st rest => (h st rest).weak⟩
+theorem OracleTerm.toW {σ : Type} {o : σ → List Cell → Nat × Bool × σ} (h : OracleTerm o) (ini : σ) :
+    OracleTermW o ini (fun _ _ => True) :=
+  ⟨fun _ => trivial, fun _ _ => trivial, fun st rest _ => h st rest⟩
 
 theorem richOracle_term (lb : Nat → Nat → Bool) : OracleTerm (richOracle lb) := by
   intro st rest
@@ -293,87 +282,35 @@ theorem seg_noterm {σ : Type} {o : σ → List Cell → Nat × Bool × σ} {st 
         have := h2 c (by rw [List.getLast?_eq_some_getLast hne, h]) ht
         rw [hbr] at this; cases this
 
-/-- weak query without must-break: only the first cell can be a terminator -/
-theorem seg_noterm_tail {σ : Type} {o : σ → List Cell → Nat × Bool × σ} {st : σ} {rest : List Cell}
-    (hs : SegTermWeak o st rest) (hbr : (o st rest).2.1 = false) :
-    ∀ c ∈ (rest.take (o st rest).1).tail, c.term = false := by
-  intro c hc
-  obtain ⟨h1, h2⟩ := hs
-  generalize rest.take (o st rest).1 = s at hc h1 h2
-  cases s with
-  | nil => simp at hc
-  | cons a as =>
-    simp only [List.tail_cons] at hc h1
-    cases as with
-    | nil => simp at hc
-    | cons b bs =>
-      have hne : (b :: bs) ≠ [] := by simp
-      rw [← List.dropLast_concat_getLast hne] at hc
-      rcases List.mem_append.mp hc with h | h
-      · exact h1 c h
-      · simp only [List.mem_singleton] at h
-        cases ht : c.term with
-        | false => rfl
-        | true =>
-          have hl : (a :: b :: bs).getLast? = some c := by
-            rw [List.getLast?_cons_cons, List.getLast?_eq_some_getLast hne, h]
-          have := h2 c hl ht (by simp)
-          rw [hbr] at this; cases this
-
-theorem mem_tail_append {q s : List Cell} {c : Cell} (h : c ∈ (q ++ s).tail) : c ∈ q.tail ∨ c ∈ s := by
-  cases q with
-  | nil => right; exact List.mem_of_mem_tail h
-  | cons a as =>
-    simp only [List.cons_append, List.tail_cons] at h ⊢
-    exact List.mem_append.mp h
-
-/-- After whole segments without must-break: either nothing was taken, or the scanner stands at a
-fresh position and only the very first cell consumed can be a terminator. -/
-theorem taken_prefix {σ : Type} {o : σ → List Cell → Nat × Bool × σ} {Fresh : σ → List Cell → Prop}
-    (hot : OracleTermW o Fresh)
-    {st : σ} {rest : List Cell} {st1 : σ} {rest1 : List Cell} (h : Taken o st rest st1 rest1) :
-    (st1 = st ∧ rest1 = rest) ∨
-    (∃ q, rest = q ++ rest1 ∧ (∀ c ∈ q.tail, c.term = false) ∧ Fresh st1 rest1) := by
+/-- After whole segments without must-break from a fresh position: the scanner stands at a fresh
+position and no cell consumed is a terminator. -/
+theorem taken_prefix {σ : Type} {o : σ → List Cell → Nat × Bool × σ} {ini : σ} {Fresh : σ → List Cell → Prop}
+    (hot : OracleTermW o ini Fresh)
+    {st : σ} {rest : List Cell} {st1 : σ} {rest1 : List Cell} (hf : Fresh st rest)
+    (h : Taken o st rest st1 rest1) :
+    ∃ q, rest = q ++ rest1 ∧ (∀ c ∈ q, c.term = false) ∧ Fresh st1 rest1 := by
   induction h with
-  | refl => exact Or.inl ⟨rfl, rfl⟩
+  | refl => exact ⟨[], rfl, by simp, hf⟩
   | @step st1 rest1 _ hbr ih =>
-    right
-    rcases ih with ⟨h1, h2⟩ | ⟨q, hq, hn, hf⟩
-    · subst h1 h2
-      refine ⟨rest1.take (o st1 rest1).1, (List.take_append_drop _ _).symm, ?_, hot.step st1 rest1⟩
-      exact seg_noterm_tail (hot.weak st1 rest1) hbr
-    · refine ⟨q ++ rest1.take (o st1 rest1).1, ?_, ?_, hot.step st1 rest1⟩
-      · rw [List.append_assoc, List.take_append_drop]; exact hq
-      · intro c hc
-        rcases mem_tail_append hc with h | h
-        · exact hn c h
-        · exact seg_noterm (hot.strong st1 rest1 hf) hbr c h
-
-theorem tail_dropLast_comm (s : List Cell) : s.tail.dropLast = s.dropLast.tail := by
-  cases s with
-  | nil => rfl
-  | cons a as =>
-    cases as with
-    | nil => rfl
-    | cons b bs => simp
-
-theorem termFL_append {q s : List Cell} (hq : ∀ c ∈ q.tail, c.term = false) (hs : TermLast s) :
-    TermFL (q ++ s) := by
-  intro c hc
-  cases q with
-  | nil =>
-    rw [List.nil_append, tail_dropLast_comm] at hc
-    exact hs c (List.mem_of_mem_tail hc)
-  | cons a as =>
-    simp only [List.cons_append, List.tail_cons] at hc hq
-    by_cases hne : s = []
-    · subst hne
-      rw [List.append_nil] at hc
-      exact hq c (List.dropLast_subset _ hc)
-    · rw [List.dropLast_append_of_ne_nil hne] at hc
+    obtain ⟨q, hq, hn, hf1⟩ := ih
+    refine ⟨q ++ rest1.take (o st1 rest1).1, ?_, ?_, hot.step st1 rest1⟩
+    · rw [List.append_assoc, List.take_append_drop]; exact hq
+    · intro c hc
       rcases List.mem_append.mp hc with h | h
-      · exact hq c h
-      · exact hs c h
+      · exact hn c h
+      · exact seg_noterm (hot.strong st1 rest1 hf1) hbr c h
+
+theorem termLast_append {q s : List Cell} (hq : ∀ c ∈ q, c.term = false) (hs : TermLast s) :
+    TermLast (q ++ s) := by
+  intro c hc
+  by_cases hne : s = []
+  · subst hne
+    rw [List.append_nil] at hc
+    exact hq c (List.dropLast_subset _ hc)
+  · rw [List.dropLast_append_of_ne_nil hne] at hc
+    rcases List.mem_append.mp hc with h | h
+    · exact hq c h
+    · exact hs c h
 
 theorem termLast_prefix {t u s : List Cell} (h : t ++ u = s) (hs : TermLast s) : TermLast t := by
   intro c hc
@@ -383,82 +320,61 @@ theorem termLast_prefix {t u s : List Cell} (h : t ++ u = s) (hs : TermLast s) :
     rw [← h, List.dropLast_append_of_ne_nil hne]
     exact List.mem_append_left _ (List.dropLast_subset _ hc)
 
-theorem termFL_prefix {t u s : List Cell} (h : t ++ u = s) (hs : TermFL s) : TermFL t := by
-  cases t with
-  | nil => intro c hc; simp at hc
-  | cons a as =>
-    subst h
-    simp only [List.cons_append] at hs
-    exact termLast_prefix (t := as) (u := u) rfl hs
-
-/-- One `Scan` consumes a prefix `p` of `rest`; the line holds the non-whitespace graphemes of `p`,
-and `p` has a terminator at most as its first or last cell. -/
-theorem scan_piece {σ : Type} (o : σ → List Cell → Nat × Bool × σ) (hok : OracleOK o)
-    {Fresh : σ → List Cell → Prop} (hot : OracleTermW o Fresh) (width : Nat) (rest : List Cell) (st : σ)
-    (rest' : List Cell) (st' : σ) (tok : List Cell) (h : scan o width rest st = .line rest' st' tok) :
-    ∃ p, rest = p ++ rest' ∧ content tok = content p ∧ TermFL p := by
+/-- One `Scan` from a fresh position consumes a prefix `p` of `rest`; the line holds the
+non-whitespace graphemes of `p`, `p` has a terminator at most as its last cell, and the next `Scan`
+starts at a fresh position again. -/
+theorem scan_piece {σ : Type} (o : σ → List Cell → Nat × Bool × σ) (ini : σ) (hok : OracleOK o)
+    {Fresh : σ → List Cell → Prop} (hot : OracleTermW o ini Fresh) (width : Nat) (rest : List Cell) (st : σ)
+    (hfr : Fresh st rest)
+    (rest' : List Cell) (st' : σ) (tok : List Cell) (h : scan o ini width rest st = .line rest' st' tok) :
+    ∃ p, rest = p ++ rest' ∧ content tok = content p ∧ TermLast p ∧ Fresh st' rest' := by
   have hcons : content tok ++ content rest' = content rest := by
-    rcases scan_cases o width hok rest st with ⟨hs, _⟩ | ⟨_, r, s, t, h1, _, h3⟩
+    rcases scan_cases o ini width hok rest st with ⟨hs, _⟩ | ⟨_, r, s, t, h1, _, h3⟩
     · rw [hs] at h; cases h
     · rw [h1] at h; cases h; exact h3
-  obtain ⟨st1, rest1, htk, hend⟩ := scan_structure o width rest st rest' st' tok h
-  have fin : ∀ p, rest = p ++ rest' → TermFL p → ∃ p, rest = p ++ rest' ∧ content tok = content p ∧ TermFL p := by
-    intro p hp ht
-    refine ⟨p, hp, ?_, ht⟩
+  obtain ⟨st1, rest1, htk, hend⟩ := scan_structure o ini width rest st rest' st' tok h
+  have fin : ∀ p, rest = p ++ rest' → TermLast p → Fresh st' rest' →
+      ∃ p, rest = p ++ rest' ∧ content tok = content p ∧ TermLast p ∧ Fresh st' rest' := by
+    intro p hp ht hf
+    refine ⟨p, hp, ?_, ht, hf⟩
     rw [hp, content_append] at hcons
     exact List.append_cancel_right hcons
-  have hsplit : ∀ t r, t ++ r = trimRight (rest1.take (o st1 rest1).1) →
-      t ++ (r ++ trailing (rest1.take (o st1 rest1).1)) = rest1.take (o st1 rest1).1 := by
-    intro t r htr
-    rw [← List.append_assoc, htr, trim_append_trailing]
-  rcases taken_prefix hot htk with ⟨h1, h2⟩ | ⟨q, hq, hn, hf⟩
-  · -- nothing taken before: the ending query is the first of this Scan (possibly stale state)
-    subst h1 h2
-    have hsegT : TermFL (rest1.take (o st1 rest1).1) := (hot.weak st1 rest1).1
-    cases hend with
-    | left h1 _ _ => exact fin [] (by rw [h1]; rfl) (by intro c hc; simp at hc)
-    | last h1 _ _ => exact fin _ (by rw [h1]; exact (List.take_append_drop _ _).symm) hsegT
-    | split _ _ h3 =>
-      obtain ⟨t, r, htr, hr⟩ := h3
-      have hseg := hsplit t r htr
-      refine fin t ?_ (termFL_prefix hseg hsegT)
-      rw [hr]
-      conv => lhs; rw [← List.take_append_drop (o st1 rest1).1 rest1, ← hseg]
-      simp only [List.append_assoc]
-  · have hsegT : TermLast (rest1.take (o st1 rest1).1) := (hot.strong st1 rest1 hf).1
-    cases hend with
-    | left h1 _ _ =>
-      exact fin q (by rw [h1]; exact hq) (by
-        have := termFL_append hn (s := []) (by intro c hc; simp at hc)
-        simpa using this)
-    | last h1 _ _ =>
-      refine fin (q ++ rest1.take (o st1 rest1).1) ?_ (termFL_append hn hsegT)
-      rw [h1, List.append_assoc, List.take_append_drop]; exact hq
-    | split _ _ h3 =>
-      obtain ⟨t, r, htr, hr⟩ := h3
-      have hseg := hsplit t r htr
-      refine fin (q ++ t) ?_ (termFL_append hn (termLast_prefix hseg hsegT))
-      rw [hr, hq]
-      conv => lhs; rw [← List.take_append_drop (o st1 rest1).1 rest1, ← hseg]
-      simp only [List.append_assoc]
+  obtain ⟨q, hq, hn, hf⟩ := taken_prefix hot hfr htk
+  have hsegT : TermLast (rest1.take (o st1 rest1).1) := (hot.strong st1 rest1 hf).1
+  cases hend with
+  | left h1 h2 _ =>
+    exact fin q (by rw [h1]; exact hq) (by
+      have := termLast_append hn (s := []) (by intro c hc; simp at hc)
+      simpa using this) (by rw [h1, h2]; exact hf)
+  | last h1 h2 _ =>
+    refine fin (q ++ rest1.take (o st1 rest1).1) ?_ (termLast_append hn hsegT) (by rw [h1, h2]; exact hot.step st1 rest1)
+    rw [h1, List.append_assoc, List.take_append_drop]; exact hq
+  | split _ h2 h3 =>
+    obtain ⟨t, r, htr, hr⟩ := h3
+    have hseg : t ++ (r ++ trailing (rest1.take (o st1 rest1).1)) = rest1.take (o st1 rest1).1 := by
+      rw [← List.append_assoc, htr, trim_append_trailing]
+    refine fin (q ++ t) ?_ (termLast_append hn (termLast_prefix hseg hsegT)) (by rw [h2]; exact hot.init rest')
+    rw [hr, hq]
+    conv => lhs; rw [← List.take_append_drop (o st1 rest1).1 rest1, ← hseg]
+    simp only [List.append_assoc]
 
 /-- The whole iteration: `rest` is the concatenation of pieces, line `i` holds the
 non-whitespace graphemes of piece `i`. -/
-theorem scanAll_pieces {σ : Type} (o : σ → List Cell → Nat × Bool × σ) (hok : OracleOK o)
-    {Fresh : σ → List Cell → Prop} (hot : OracleTermW o Fresh) (width : Nat) (hw : 0 < width) :
-    ∀ (fuel : Nat) (rest : List Cell) (st : σ) (ls : List (List Cell)),
-    scanAll o width fuel rest st = .ok ls →
-    ∃ ps, rest = ps.flatten ∧ (∀ k, lineIdxFrom k ls = lineIdxFrom k ps) ∧ ∀ p ∈ ps, TermFL p := by
+theorem scanAll_pieces {σ : Type} (o : σ → List Cell → Nat × Bool × σ) (ini : σ) (hok : OracleOK o)
+    {Fresh : σ → List Cell → Prop} (hot : OracleTermW o ini Fresh) (width : Nat) (hw : 0 < width) :
+    ∀ (fuel : Nat) (rest : List Cell) (st : σ) (ls : List (List Cell)), Fresh st rest →
+    scanAll o ini width fuel rest st = .ok ls →
+    ∃ ps, rest = ps.flatten ∧ (∀ k, lineIdxFrom k ls = lineIdxFrom k ps) ∧ ∀ p ∈ ps, TermLast p := by
   intro fuel
   induction fuel with
-  | zero => intro rest st ls h; simp [scanAll] at h
+  | zero => intro rest st ls _ h; simp [scanAll] at h
   | succ n ih =>
-    intro rest st ls h
+    intro rest st ls hfr h
     unfold scanAll at h
     split at h
     · rename_i hs
       cases h
-      rcases scan_cases o width hok rest st with ⟨_, hz⟩ | ⟨_, r, s, t, h1, _, _⟩
+      rcases scan_cases o ini width hok rest st with ⟨_, hz⟩ | ⟨_, r, s, t, h1, _, _⟩
       · rcases hz with hz | hz
         · exact ⟨[], by simp [hz], fun _ => rfl, by simp⟩
         · omega
@@ -468,8 +384,8 @@ theorem scanAll_pieces {σ : Type} (o : σ → List Cell → Nat × Bool × σ) 
       split at h
       · rename_i ls' hls
         cases h
-        obtain ⟨p, hp, hc, ht⟩ := scan_piece o hok hot width rest st rest' st' tok hs
-        obtain ⟨ps, hps, hidx, hall⟩ := ih rest' st' ls' hls
+        obtain ⟨p, hp, hc, ht, hf'⟩ := scan_piece o ini hok hot width rest st hfr rest' st' tok hs
+        obtain ⟨ps, hps, hidx, hall⟩ := ih rest' st' ls' hf' hls
         refine ⟨p :: ps, by rw [List.flatten_cons, ← hps]; exact hp, ?_, ?_⟩
         · intro k; simp only [lineIdxFrom, hc, hidx]
         · intro x hx
@@ -479,15 +395,15 @@ theorem scanAll_pieces {σ : Type} (o : σ → List Cell → Nat × Bool × σ) 
       · cases h
 
 /-- **`hardBreakOK` for the whole iteration**, for every text, positive width and oracle. -/
-theorem lines_hardBreakOK {σ : Type} (o : σ → List Cell → Nat × Bool × σ) (hok : OracleOK o)
-    {Fresh : σ → List Cell → Prop} (hot : OracleTermW o Fresh) (width : Nat) (hw : 0 < width)
-    (cells : List Cell) (st0 : σ)
-    (ls : List (List Cell)) (h : lines o width cells st0 = .ok ls) : hardBreakOK cells ls = true := by
-  obtain ⟨ps, hps, hidx, hall⟩ := scanAll_pieces o hok hot width hw _ cells st0 ls h
+theorem lines_hardBreakOK {σ : Type} (o : σ → List Cell → Nat × Bool × σ) (ini : σ) (hok : OracleOK o)
+    {Fresh : σ → List Cell → Prop} (hot : OracleTermW o ini Fresh) (width : Nat) (hw : 0 < width)
+    (cells : List Cell) (st0 : σ) (hf0 : Fresh st0 cells)
+    (ls : List (List Cell)) (h : lines o ini width cells st0 = .ok ls) : hardBreakOK cells ls = true := by
+  obtain ⟨ps, hps, hidx, hall⟩ := scanAll_pieces o ini hok hot width hw _ cells st0 ls hf0 h
   rw [hardBreakOK_walk, lineIndex_eq, hidx 0, hps]
-  exact hbWalk_piecesFL ps 0 none false hall (by intro i hi; cases hi)
+  exact hbWalk_pieces ps 0 none false hall (by intro i hi; cases hi)
 
-/-! ### No emitted line contains a line terminator (strong oracles) -/
+/-! ### No emitted line contains a line terminator -/
 
 theorem trimRight_last_nonsp (seg : List Cell) (l : Cell) (h : (trimRight seg).getLast? = some l) :
     l.sp = false := by
@@ -535,17 +451,19 @@ theorem stripBreak_noterm (seg : List Cell) (hT : TermLast seg) : ∀ c ∈ stri
       · simp only [List.mem_singleton] at h
         rw [h, hl']; simpa using hnt
 
-theorem scanLoop_noterm {σ : Type} (o : σ → List Cell → Nat × Bool × σ) (hot : OracleTerm o) (width : Nat) :
+theorem scanLoop_noterm {σ : Type} (o : σ → List Cell → Nat × Bool × σ) (ini : σ)
+    {Fresh : σ → List Cell → Prop} (hot : OracleTermW o ini Fresh) (width : Nat) :
     ∀ (fuel : Nat) (rest : List Cell) (st : σ) (token : List Cell) (w : Nat)
-      (rest' : List Cell) (st' : σ) (tok : List Cell),
+      (rest' : List Cell) (st' : σ) (tok : List Cell), Fresh st rest →
     (∀ c ∈ rest, c.term = true → c.sp = true) → (∀ c ∈ token, c.term = false) →
-    scanLoop o width fuel rest st token w = .line rest' st' tok → ∀ c ∈ tok, c.term = false := by
+    scanLoop o ini width fuel rest st token w = .line rest' st' tok → ∀ c ∈ tok, c.term = false := by
   intro fuel
   induction fuel with
-  | zero => intro rest st token w rest' st' tok _ _ h; simp [scanLoop] at h
+  | zero => intro rest st token w rest' st' tok _ _ _ h; simp [scanLoop] at h
   | succ n ih =>
-    intro rest st token w rest' st' tok hsp htok h
-    have hS := hot st rest
+    intro rest st token w rest' st' tok hfr hsp htok h
+    have hS := hot.strong st rest hfr
+    have hstep := hot.step st rest
     have hsegsp : ∀ c ∈ rest.take (o st rest).1, c.term = true → c.sp = true :=
       fun c hc => hsp c (List.mem_of_mem_take hc)
     have hword := word_noterm _ hS.1 hsegsp
@@ -586,7 +504,7 @@ theorem scanLoop_noterm {σ : Type} (o : σ → List Cell → Nat × Bool × σ)
             rcases List.mem_append.mp hc with hc | hc
             · exact htok c hc
             · exact hword c hc
-          · refine ih _ _ _ _ _ _ _ (fun c hc => hsp c (List.mem_of_mem_drop hc)) ?_ h
+          · refine ih _ _ _ _ _ _ _ hstep (fun c hc => hsp c (List.mem_of_mem_drop hc)) ?_ h
             intro c hc
             rcases List.mem_append.mp hc with hc | hc
             · rcases List.mem_append.mp hc with hc | hc
@@ -597,16 +515,16 @@ theorem scanLoop_noterm {σ : Type} (o : σ → List Cell → Nat × Bool × σ)
               exact List.mem_append_right _ hc
 
 open VaxisModel.Spec.Wrap (noTermInLines) in
-theorem scanAll_noterm {σ : Type} (o : σ → List Cell → Nat × Bool × σ) (hok : OracleOK o)
-    (hot : OracleTerm o) (width : Nat) :
-    ∀ (fuel : Nat) (rest : List Cell) (st : σ) (ls : List (List Cell)),
+theorem scanAll_noterm {σ : Type} (o : σ → List Cell → Nat × Bool × σ) (ini : σ) (hok : OracleOK o)
+    {Fresh : σ → List Cell → Prop} (hot : OracleTermW o ini Fresh) (width : Nat) :
+    ∀ (fuel : Nat) (rest : List Cell) (st : σ) (ls : List (List Cell)), Fresh st rest →
     (∀ c ∈ rest, c.term = true → c.sp = true) →
-    scanAll o width fuel rest st = .ok ls → noTermInLines ls = true := by
+    scanAll o ini width fuel rest st = .ok ls → noTermInLines ls = true := by
   intro fuel
   induction fuel with
-  | zero => intro rest st ls _ h; simp [scanAll] at h
+  | zero => intro rest st ls _ _ h; simp [scanAll] at h
   | succ n ih =>
-    intro rest st ls hsp h
+    intro rest st ls hfr hsp h
     unfold scanAll at h
     split at h
     · cases h; rfl
@@ -615,15 +533,15 @@ theorem scanAll_noterm {σ : Type} (o : σ → List Cell → Nat × Bool × σ) 
       split at h
       · rename_i ls' hls
         cases h
-        obtain ⟨p, hp, _, _⟩ := scan_piece o hok hot.toW width rest st rest' st' tok hs
+        obtain ⟨p, hp, _, _, hf'⟩ := scan_piece o ini hok hot width rest st hfr rest' st' tok hs
         have hsp' : ∀ c ∈ rest', c.term = true → c.sp = true :=
           fun c hc => hsp c (by rw [hp]; exact List.mem_append_right _ hc)
         have h1 : ∀ c ∈ tok, c.term = false := by
           unfold scan at hs
           split at hs
           · cases hs
-          · exact scanLoop_noterm o hot width _ _ _ _ _ _ _ _ hsp (by simp) hs
-        have h2 := ih rest' st' ls' hsp' hls
+          · exact scanLoop_noterm o ini hot width _ _ _ _ _ _ _ _ hfr hsp (by simp) hs
+        have h2 := ih rest' st' ls' hf' hsp' hls
         simp only [noTermInLines, List.all_cons, Bool.and_eq_true, List.all_eq_true] at h2 ⊢
         refine ⟨fun c hc => by simp [h1 c hc], h2⟩
       · cases h
